@@ -10,7 +10,9 @@ namespace
     // the 9 operator kinds of the enumerated space
     OpSpec kind_op(size_t k, size_t pos)
     {
-        std::string nm = "s" + std::to_string(pos);
+        // names repeat with period 3: two snapshots of one kind may carry the same name (the
+        // statement: "snapshot names are listed as given"; seeded change C20-H lists them once)
+        std::string nm = "s" + std::to_string(pos % 3);
         switch (k)
         {
             case 0:
@@ -166,6 +168,10 @@ static void check_case(vg::Src& s, vh::Ctx& c)
     // width is)
     for (size_t k = 0; k < pm.graph_keys.size(); ++k)
     {
+        // a name given to two graph snapshots designates one stored graph (the later save
+        // replaces the earlier): which of the two widths it has is not part of the statement
+        if (std::count(pm.graph_keys.begin(), pm.graph_keys.end(), pm.graph_keys[k]) > 1)
+            continue;
         va::IGraph& sg = g->graph_snapshot(pm.graph_keys[k]);
         c.expect(sg.state().rcols == (pm.snap_single[k] ? 1u : static_cast<size_t>(grid->n_neighbors_max())), "snapshot-table-width", pm.graph_keys[k]);
     }
